@@ -30,9 +30,9 @@ ASSUMPTIONS = [
     "a SystemExit travelling out of llc.run() after an input/output error is the repository's deliberate "
     "behaviour and is not counted",
 ]
-REQUIRED_PROBES = {"quick": ["blocked_at_break", "cause.disc", "cause.disrupt", "cause.terminate", "cause.ioerror"],
-                   "thorough": ["blocked_at_break", "cause.disc", "cause.disrupt", "cause.terminate", "cause.ioerror"]}
-CAUSES = ["disc", "disrupt", "terminate", "ioerror", "ioerror-persistent"]
+REQUIRED_PROBES = {"quick": ["blocked_at_break", "cause.disc", "cause.disrupt", "cause.terminate", "cause.ioerror", "cause.encode"],
+                   "thorough": ["blocked_at_break", "cause.disc", "cause.disrupt", "cause.terminate", "cause.ioerror", "cause.encode"]}
+CAUSES = ["disc", "disrupt", "terminate", "ioerror", "ioerror-persistent", "encode"]
 OPS = ["dlc_client", "dlc_server", "ldl_recv", "ldl_send", "resolve", "poll_recv", "snep_put", "snep_get",
        "handover", "connect_noone", "accept_only", "sender_flood", "poll_acks", "opener", "opener"]
 
@@ -54,7 +54,9 @@ def run_one(sim, params):
     cause = params.get("cause") or sim.pick("cause", CAUSES)
     who = sim.pick("who", ["I", "T"])                 # side that causes / suffers the termination
     break_at = sim.wpick("break.at", [(2, 1), (2, 3), (3, 6), (3, 10), (2, 16), (2, 25), (1, 60)])
-    pair = w5.LlcPair(nfc, k, {"miu": 248, "lto": 500}, {"miu": 248, "lto": 500})
+    # (an outbound PDU that cannot be encoded must first pass the size test against the peer's link MIU)
+    link_miu = 2175 if cause == "encode" else 248
+    pair = w5.LlcPair(nfc, k, {"miu": link_miu, "lto": 500}, {"miu": link_miu, "lto": 500})
     desc = {"cause": cause, "who": who, "break_at_exchange": break_at, "preempt_p": pol}
     sim.probe("cause." + cause.split("-")[0])
     state = {"exchanges": 0, "broken": False, "terminate": {"I": False, "T": False}}
@@ -79,6 +81,10 @@ def run_one(sim, params):
             elif cause in ("disc", "terminate"):
                 state["terminate"][who] = True
                 sim.fault("terminate_true")
+            elif cause == "encode":
+                # an application thread queues a PDU that the link loop cannot encode (error in the link loop)
+                state["bad_send"] = True
+                sim.fault("unencodable_outbound_pdu")
             elif cause.startswith("ioerror"):
                 pair.pipe.fail_io[who] = 1 if cause == "ioerror" else 10 ** 6
                 if cause == "ioerror-persistent":
@@ -340,6 +346,31 @@ def run_one(sim, params):
             kernel.TIME.sleep(0.002)
         sim.probe("opener.after_break" if after else "opener.before_only")
 
+    def op_bad_send(llc, name="x"):
+        how = sim.pick("bad_send.how", ["resolve", "connect"])
+        while not state.get("bad_send") and not ended.is_set():
+            kernel.TIME.sleep(0.003)
+        side = "I" if llc is pair.I else "T"
+        if how == "resolve":
+            inflight[name] = "resolve(name of 300 octets)"
+            llc.resolve(b"urn:nfc:sn:" + b"x" * 289)
+            return
+        # (a datagram of the peer for the address the fresh socket happens to get ends that socket before its
+        # CONNECT went out: try again until the link loop has met the PDU)
+        for attempt in range(50):
+            if side in loop_end or ended.is_set():
+                break
+            s = track(llc, nfc.llcp.Socket(llc, nfc.llcp.DATA_LINK_CONNECTION))
+            inflight[name] = "connect(name of 300 octets)"
+            try:
+                s.connect(b"urn:nfc:sn:" + b"y" * 289)
+            except nfc.llcp.Error:
+                pass
+            finally:
+                s.close()
+            inflight[name] = None
+            kernel.TIME.sleep(0.01)
+
     scripts = {"opener": op_opener, "dlc_client": op_dlc_client, "dlc_server": op_dlc_server, "ldl_recv": op_ldl_recv,
                "ldl_send": op_ldl_send, "resolve": op_resolve, "poll_recv": op_poll_recv, "snep_put": op_snep_put,
                "snep_get": op_snep_get, "handover": op_handover, "connect_noone": op_connect_noone,
@@ -374,6 +405,10 @@ def run_one(sim, params):
                 fn = scripts[op]
                 apps.append((name, k.spawn(guarded(name, lambda llc, fn=fn, name=name: fn(llc, name), llc),
                                            name=name, node=side)))
+        if cause == "encode":
+            llc = pair.I if who == "I" else pair.T
+            name = "%s-bad_send" % who
+            apps.append((name, k.spawn(guarded(name, lambda llc, name=name: op_bad_send(llc, name), llc), name=name, node=who)))
         state["apps"] = apps
         # wait for both link loops to end
         t_end = None
@@ -458,7 +493,7 @@ def run_one(sim, params):
                             "%s (call started at t=%.3f, link loop of side %s ended at t=%.3f); all stuck: %s; %r"
                             % (cause, who, break_at, t.name, t.wait_on, where[t.name][0], label,
                                since.get(t.name, 0) - 1000, side, loop_end.get(side, 0) - 1000,
-                               "; ".join(report)[:500], desc)))
+                               "; ".join(report)[:1600], desc)))
     for n, e in loop_exc:
         vs.append(Violation("run-loop-raised", "%s %s" % (cause, core.exc_site(e)), "%s ended with %r; %r" % (n, e, desc)))
     for n, e in died:
